@@ -1552,3 +1552,130 @@ fn rewrite_macro_with_items(
     result.push_str(trailing_semicolon);
     Ok(result)
 }
+
+/// Read-only views of the token-stream scanners of this file for the external checks.
+#[cfg(feature = "verif-hooks")]
+pub(crate) mod verif_local {
+    use super::*;
+
+    /// The name of a token kind as the scanners tell them apart (`Ident` / `IdentRaw`, `Literal`,
+    /// `Lifetime`, `DocCommentLine` / `DocCommentBlock`, else the variant's name).
+    pub(crate) fn kind_name(kind: &TokenKind) -> String {
+        match kind {
+            TokenKind::Ident(_, IdentIsRaw::Yes) => "IdentRaw".to_owned(),
+            TokenKind::DocComment(rustc_ast::token::CommentKind::Line, ..) => {
+                "DocCommentLine".to_owned()
+            }
+            TokenKind::DocComment(rustc_ast::token::CommentKind::Block, ..) => {
+                "DocCommentBlock".to_owned()
+            }
+            _ => {
+                let s = format!("{kind:?}");
+                let end = s
+                    .find(|c: char| !c.is_ascii_alphanumeric())
+                    .unwrap_or(s.len());
+                s[..end].to_owned()
+            }
+        }
+    }
+
+    fn hex(s: &str) -> String {
+        if s.is_empty() {
+            return "-".to_owned();
+        }
+        s.bytes().map(|b| format!("{b:02x}")).collect()
+    }
+
+    pub(crate) fn delim_letter(delim: Delimiter) -> char {
+        match delim {
+            Delimiter::Parenthesis => 'P',
+            Delimiter::Bracket => 'K',
+            Delimiter::Brace => 'B',
+            Delimiter::Invisible(_) => 'I',
+        }
+    }
+
+    fn encode_into(ts: &TokenStream, out: &mut Vec<String>) {
+        for tt in ts.iter() {
+            match tt {
+                TokenTree::Token(t, _) => out.push(format!(
+                    "t.{}.{}",
+                    kind_name(&t.kind),
+                    hex(&pprust::token_to_string(t))
+                )),
+                TokenTree::Delimited(_, _, delim, inner) => {
+                    out.push(format!("o.{}", delim_letter(*delim)));
+                    encode_into(inner, out);
+                    out.push(format!("c.{}", delim_letter(*delim)));
+                }
+            }
+        }
+    }
+
+    /// A token stream as a `,`-joined list: `t.<kind>.<hex of token_to_string>` for a token,
+    /// `o.<P|K|B|I>` … `c.<P|K|B|I>` around the trees of a delimited group; `_` when empty.
+    pub(crate) fn encode_stream(ts: &TokenStream) -> String {
+        let mut out = vec![];
+        encode_into(ts, &mut out);
+        if out.is_empty() {
+            "_".to_owned()
+        } else {
+            out.join(",")
+        }
+    }
+
+    pub(crate) struct BranchInfo {
+        pub(crate) args: TokenStream,
+        pub(crate) delim: char,
+        pub(crate) span: String,
+        pub(crate) body: String,
+        pub(crate) whole_body: String,
+    }
+
+    /// `MacroParser::new(def.body.tokens.iter()).parse()`.
+    pub(crate) fn split_branches(
+        context: &RewriteContext<'_>,
+        def: &ast::MacroDef,
+    ) -> Option<Vec<BranchInfo>> {
+        let ts = def.body.tokens.clone();
+        let mut parser = MacroParser::new(ts.iter());
+        let parsed = parser.parse()?;
+        Some(
+            parsed
+                .branches
+                .iter()
+                .map(|b| BranchInfo {
+                    args: b.args.clone(),
+                    delim: delim_letter(b.args_paren_kind),
+                    span: context.snippet(b.span).to_owned(),
+                    body: context.snippet(b.body).to_owned(),
+                    whole_body: context.snippet(b.whole_body).to_owned(),
+                })
+                .collect(),
+        )
+    }
+
+    /// `format_macro_args(context, args, shape)`.
+    pub(crate) fn matcher(
+        context: &RewriteContext<'_>,
+        args: TokenStream,
+        shape: Shape,
+    ) -> Option<String> {
+        format_macro_args(context, args, shape).ok()
+    }
+
+    /// `replace_names(input)` with the substitutions as sorted (old, new) pairs.
+    pub(crate) fn replace_names_sorted(input: &str) -> Option<(String, Vec<(String, String)>)> {
+        let (result, substs) = replace_names(input)?;
+        let mut v: Vec<(String, String)> = substs.into_iter().collect();
+        v.sort();
+        Some((result, v))
+    }
+
+    /// `FORCED_BRACKET_MACROS.contains(rewrite_macro_name(context, path))` and that name.
+    pub(crate) fn macro_name(context: &RewriteContext<'_>, mac: &ast::MacCall) -> (String, bool) {
+        let name = rewrite_macro_name(context, &mac.path);
+        let forced = FORCED_BRACKET_MACROS.contains(&&name[..]);
+        (name, forced)
+    }
+}
